@@ -135,8 +135,13 @@ type chkOut struct {
 
 func libCheck(opc, k, sqnUE, rnd, autn []byte) chkOut {
 	o := chkOut{res: make([]byte, 8), ck: make([]byte, 16), ik: make([]byte, 16), auts: make([]byte, 14)}
-	o.rc = milenage.Milenage_check(append([]byte{}, opc...), append([]byte{}, k...), append([]byte{}, sqnUE...), append([]byte{}, rnd...),
-		append([]byte{}, autn...), o.ik, o.ck, o.res, &o.resLen, o.auts)
+	es := []*embedded{emb(opc), emb(k), emb(sqnUE), emb(rnd), emb(autn)}
+	o.rc = milenage.Milenage_check(es[0].s(), es[1].s(), es[2].s(), es[3].s(), es[4].s(), o.ik, o.ck, o.res, &o.resLen, o.auts)
+	for _, e := range es {
+		if !e.intact() {
+			o.rc = -99 // an argument (or the memory behind it) was modified
+		}
+	}
 	return o
 }
 
@@ -194,6 +199,36 @@ func c15Oracle(r *ev.Rec) func(c15Case) ev.Verdict {
 	}
 }
 
+// emb hands a value to the library the way callers hold it: as a slice of a larger buffer (a subscriber record, a
+// receive buffer) whose following octets belong to something else. The check function reports whether the value and
+// the octets behind it are still what they were.
+type embedded struct {
+	buf  []byte
+	n    int
+	want []byte
+}
+
+func emb(b []byte) *embedded {
+	e := &embedded{buf: make([]byte, len(b)+24), n: len(b), want: append([]byte{}, b...)}
+	copy(e.buf, b)
+	for i := len(b); i < len(e.buf); i++ {
+		e.buf[i] = 0xa5 ^ byte(i)
+	}
+	return e
+}
+func (e *embedded) s() []byte { return e.buf[:e.n] }
+func (e *embedded) intact() bool {
+	if !bytes.Equal(e.buf[:e.n], e.want) {
+		return false
+	}
+	for i := e.n; i < len(e.buf); i++ {
+		if e.buf[i] != 0xa5^byte(i) {
+			return false
+		}
+	}
+	return true
+}
+
 func c15One(r *ev.Rec) func(c15Case) ev.Verdict {
 	return func(c c15Case) ev.Verdict {
 		v := ev.Verdict{NT: true, Classes: []string{"pair:" + c.Pair}}
@@ -218,12 +253,48 @@ func c15One(r *ev.Rec) func(c15Case) ev.Verdict {
 			return fail("opc", "GenerateOPC = %x (err %v), TS 35.206 OPc = %x", gotOpc, err, opc)
 		}
 		macA, macS := make([]byte, 8), make([]byte, 8)
-		if err := milenage.F1(opc[:], c.K, c.RAND, c.SQNNet, c.AMF, macA, macS); err != nil || !bytes.Equal(macA, ref.MacA[:]) || !bytes.Equal(macS, ref.MacS[:]) {
+		eOpc, eK, eRand, eSqn, eAmf := emb(opc[:]), emb(c.K), emb(c.RAND), emb(c.SQNNet), emb(c.AMF)
+		inputsIntact := func(where string) *ev.Verdict {
+			for n, e := range map[string]*embedded{"OPc": eOpc, "K": eK, "RAND": eRand, "SQN": eSqn, "AMF": eAmf} {
+				if !e.intact() {
+					vv := fail("input-memory-modified:"+where, "%s wrote into (or behind) its %s argument: the buffer holding it reads %x, it was %x followed by other data", where, n, e.buf[:e.n+8], e.want)
+					return &vv
+				}
+			}
+			return nil
+		}
+		if err := milenage.F1(eOpc.s(), eK.s(), eRand.s(), eSqn.s(), eAmf.s(), macA, macS); err != nil || !bytes.Equal(macA, ref.MacA[:]) || !bytes.Equal(macS, ref.MacS[:]) {
 			return fail("f1", "F1: MAC-A %x MAC-S %x (err %v), TS 35.206 f1 %x f1* %x", macA, macS, err, ref.MacA, ref.MacS)
 		}
+		if f := inputsIntact("F1"); f != nil {
+			return *f
+		}
 		res, ck, ik, ak, aks := make([]byte, 8), make([]byte, 16), make([]byte, 16), make([]byte, 6), make([]byte, 6)
-		if err := milenage.F2345(opc[:], c.K, c.RAND, res, ck, ik, ak, aks); err != nil {
+		if err := milenage.F2345(eOpc.s(), eK.s(), eRand.s(), res, ck, ik, ak, aks); err != nil {
 			return fail("f2345", "F2345 error %v", err)
+		}
+		if f := inputsIntact("F2345"); f != nil {
+			return *f
+		}
+		// every combination of requested outputs (nil = not wanted): what is requested must be the TS 35.206 value
+		for mask := 1; mask < 32; mask++ {
+			outs := [5][]byte{make([]byte, 8), make([]byte, 16), make([]byte, 16), make([]byte, 6), make([]byte, 6)}
+			wants := [5][]byte{ref.Res[:], ref.CK[:], ref.IK[:], ref.AK[:], ref.AKs[:]}
+			var args [5][]byte
+			for j := 0; j < 5; j++ {
+				if mask&(1<<uint(j)) != 0 {
+					args[j] = outs[j]
+				}
+			}
+			err, site := ev.Guard(func() error { return milenage.F2345(eOpc.s(), eK.s(), eRand.s(), args[0], args[1], args[2], args[3], args[4]) })
+			if site != "" || err != nil {
+				return fail("f2345:outputs-subset", "F2345 with outputs %05b requested: %v", mask, err)
+			}
+			for j := 0; j < 5; j++ {
+				if args[j] != nil && !bytes.Equal(args[j], wants[j]) {
+					return fail("f2345:outputs-subset", "F2345 with only the outputs %05b (res,ck,ik,ak,ak*) requested: output %d = %x, TS 35.206 gives %x", mask, j, args[j], wants[j])
+				}
+			}
 		}
 		for _, x := range []struct {
 			n         string
@@ -238,7 +309,10 @@ func c15One(r *ev.Rec) func(c15Case) ev.Verdict {
 		{
 			autn, gik, gck, gak, gres := make([]byte, 16), make([]byte, 16), make([]byte, 16), make([]byte, 6), make([]byte, 8)
 			rl := uint(8)
-			milenage.MilenageGenerate(opc[:], c.AMF, c.K, c.SQNNet, c.RAND, autn, gik, gck, gak, gres, &rl)
+			milenage.MilenageGenerate(eOpc.s(), eAmf.s(), eK.s(), eSqn.s(), eRand.s(), autn, gik, gck, gak, gres, &rl)
+			if f := inputsIntact("MilenageGenerate"); f != nil {
+				return *f
+			}
 			if rl != 8 || !bytes.Equal(autn, wantAutn[:]) {
 				return fail("generate:autn", "MilenageGenerate: AUTN %x (res_len %d), want (SQN^AK)||AMF||f1 = %x", autn, rl, wantAutn)
 			}
@@ -270,6 +344,10 @@ func c15One(r *ev.Rec) func(c15Case) ev.Verdict {
 			ok := false
 			for _, a := range allowed {
 				ok = ok || got.rc == a
+			}
+			if got.rc == -99 {
+				vv := fail("input-memory-modified:Milenage_check", "Milenage_check(%s) wrote into (or behind) one of its input arguments", what)
+				return &vv
 			}
 			if !ok {
 				key := fmt.Sprintf("check:want%d:got%d", allowed[0], got.rc)
